@@ -479,7 +479,7 @@ def _jobs_for(prop, tier):
     if prop == 'C09':
         return jobs_c09(tier) + [j for j in jobs_option_below(tier) if j[1][3] in ('rpad', 'rpad_and_clip')] + jobs_simplify(tier) + jobs_fillna(tier) + jobs_bytemask(tier) + jobs_record_below(tier, ('rpad', 'rpad_and_clip')) + jobs_axis_through_record(tier, ('rpad', 'rpad_and_clip')) + [j for j in jobs_c02(tier) if j[1][0] in ('IndexedOptionArray64', 'ByteMaskedArray', 'BitMaskedArray', 'UnmaskedArray')]
     if prop == 'C11':
-        return jobs_simplify(tier) + jobs_validity_params(tier) + jobs_list_validity(tier) + jobs_missing_jagged(tier)
+        return jobs_simplify(tier) + jobs_validity_params(tier) + jobs_list_validity(tier) + jobs_window_validity(tier) + jobs_missing_jagged(tier)
     if prop == 'C07':
         return [j for j in jobs_option_below(tier) if j[1][3] == 'combinations'] + jobs_combinations(tier) + jobs_axis0(tier, 'combinations') + jobs_record_below(tier, ('combinations',))
     if prop == 'C03':
@@ -7390,6 +7390,103 @@ def jobs_list_validity(tier):
     if tier != 'quick':
         q += [(0, 0), (0, 2), (3, 1), (1, 0), (3, 0)]
     return [(h_list_validity, a, 1800) for a in q]
+
+
+@guard
+def h_window_validity(cls, n, view):
+    """validityerror of a ListArray64 / IndexedArray64 / IndexedOptionArray64 whose index buffers are windows (starting `view` entries in) of
+    longer buffers, as a range slice leaves them: the rule kernel is handed the *window* of every buffer, the number of entries and the
+    content's length (and, for the indexed classes, whether negative entries mean "missing"); when it finds nothing the content is asked about
+    itself and its answer is returned"""
+    # (only the node's own translation unit: string literals are module-private globals, and the empty literal this method compares with
+    # must be its own)
+    nc = NodeCtx(['LA' if cls == 'ListArray64' else 'IA', 'CNT', 'IDX', 'UTL', 'KD', 'IDS'], [], unwind=max(16, 2 * n + view + 12))
+    nc.m.eng.stubs.update(nodeh.STRING_LENGTH_STUBS)
+    ss_ = string_stubs(nc)
+    nc.m.eng.stubs.update({k_: ss_[k_] for k_ in ('memcmp', 'bcmp')})
+    nc.m.eng.stubs['_ZNK7awkward7Content16parameter_equalsERKNSt7__cxx1112basic_stringIcSt11char_traitsIcESaIcEEES8_'] = lambda eng, fr, ins, st, name, argv: z3.BitVecVal(0, 1)
+    nc.m.eng.stubs['_ZN7awkward4util16parameter_equalsE*'] = lambda eng, fr, ins, st, name, argv: z3.BitVecVal(0, 1)
+    nc.m.eng.stubs['vf$slot%d' % nc.slot('9classnameB5cxx11Ev')] = nodeh.s_some_string
+    nc.m.eng.stubs['_ZNK7awkward7Content24validityerror_parametersE*'] = nodeh.s_empty_string
+    asked, asked_len, seen = [], [], []
+
+    def s_content_validity(eng, fr, ins, st, name, argv):
+        asked.append(st.pc)
+        n_ = z3.FreshConst(z3.BitVecSort(64), 'contenttext')
+        eng.s.add(n_ >= 0, n_ <= 64)
+        asked_len.append(n_)
+        nodeh._set_string(eng, st, argv[0], n_)
+        return None
+
+    def ok_error(st, sret):
+        rec = st.mem.o[sret.obj]
+        for off, (v, w) in {0: (NULL, 8), 8: (NULL, 8), 16: (BV(2 ** 63 - 1), 8), 24: (BV(2 ** 63 - 1), 8), 32: (BV(0, 8), 1)}.items():
+            rec.cells[sret.off + off] = (v, w)
+
+    def s_list_kernel(eng, fr, ins, st, name, argv):
+        sret, starts_, stops_, length, lencontent = argv
+        seen.append(dict(pc=st.pc, bufs=[('starts', starts_, 'vw_starts'), ('stops', stops_, 'vw_stops')], length=length, lencontent=lencontent, isoption=None))
+        ok_error(st, sret)
+        return None
+
+    def s_index_kernel(eng, fr, ins, st, name, argv):
+        sret, index_, length, lencontent, isopt = argv
+        seen.append(dict(pc=st.pc, bufs=[('index', index_, 'vw_index')], length=length, lencontent=lencontent, isoption=isopt))
+        ok_error(st, sret)
+        return None
+    nc.m.eng.stubs['awkward_ListArray64_validity'] = s_list_kernel
+    nc.m.eng.stubs['awkward_IndexedArray64_validity'] = s_index_kernel
+    nc.m.eng.stubs['vf$slot%d' % nc.slot('13validityerrorERKNSt7__cxx1112basic_string')] = s_content_validity
+    total = view + n
+    if cls == 'ListArray64':
+        fo, sz, al, fields = nc.layout_of('LA', '_ZNK7awkward11ListArrayOfIlE6lengthEv')
+        d1 = nc.m.array('vw_starts', ('i', 64), max(1, total), const=True)
+        d2 = nc.m.array('vw_stops', ('i', 64), max(1, total + 1), const=True)          # (the stops buffer may be longer than the starts)
+        cells = nc.content_header('node', nc.vptr_of('N7awkward11ListArrayOfIlEE', 'LA'))
+        nc.index_cells(cells, fo[1], d1, BV(view), BV(n))
+        nc.index_cells(cells, fo[2], d2, BV(view), BV(n))
+        cells.update({fo[3]: (nc.content0, 8), fo[3] + 8: (NULL, 8)})
+        sym = '_ZNK7awkward11ListArrayOfIlE13validityerrorERKNSt7__cxx1112basic_stringIcSt11char_traitsIcESaIcEEE'
+        want_opt = None
+    else:
+        option = cls == 'IndexedOptionArray64'
+        fo, sz, al, fields = nc.layout_of('IA', '_ZNK7awkward14IndexedArrayOfIlLb%dEE6lengthEv' % (1 if option else 0))
+        d1 = nc.m.array('vw_index', ('i', 64), max(1, total), const=True)
+        cells = nc.content_header('node', nc.vptr_of('N7awkward14IndexedArrayOfIlLb%dEEE' % (1 if option else 0), 'IA'))
+        nc.index_cells(cells, fo[1], d1, BV(view), BV(n))
+        cells.update({fo[2]: (nc.content0, 8), fo[2] + 8: (NULL, 8)})
+        sym = '_ZNK7awkward14IndexedArrayOfIlLb%dEE13validityerrorERKNSt7__cxx1112basic_stringIcSt11char_traitsIcESaIcEEE' % (1 if option else 0)
+        want_opt = 1 if option else 0
+    this = nc.m.record('node', cells, const=True)
+    pc_ = {}
+    _string_cells(pc_, 0, 'path', 'layout')
+    path = nc.m.record('path', pc_, const=True)
+    nc.m.record('ret', {})
+    out = nc.m.call(sym, [Ptr('ret', 0), this, path])
+    ln = out.mem.o['ret'].cells[8][0]
+    obls = [('the check does not raise', out.raised), ('the rule check is run', z3.Not(z3.Or([ob['pc'] for ob in seen] + [z3.BoolVal(False)]))),
+            ('the content is asked about itself when the entries obey the rules', z3.Not(z3.Or(asked + [z3.BoolVal(False)])))]
+    bv64_ = lambda x: BV(x) if isinstance(x, int) else x
+    for ob in seen:
+        g = ob['pc']
+        for what, p, bufname in ob['bufs']:
+            at = z3.Or([z3.And(gg, z3.BoolVal(q.obj == bufname), bv64_(q.off) == view) for gg, q in nodeh.ptr_cases(p)] + [z3.BoolVal(False)])
+            obls.append(('the %s checked are the window\'s: entries %d.. of their buffer' % (what, view), z3.And(g, z3.Not(at))))
+        obls.append(('as many entries are checked as the array has, against the length of its content', z3.And(g, z3.Or(ob['length'] != n, ob['lencontent'] != nc.lencontent))))
+        if want_opt is not None:
+            io = ob['isoption'] if ob['isoption'].size() == 1 else z3.Extract(0, 0, ob['isoption'])
+            obls.append(('negative entries are %s' % ('allowed (missing values)' if want_opt else 'not allowed'), z3.And(g, io != z3.BitVecVal(want_opt, 1))))
+    for pc, n_ in zip(asked, asked_len):
+        obls.append(('what the content says about itself is the answer', z3.And(pc, z3.Not(out.raised), ln != n_)))
+    return mdischarge(nc.m, '%s::validityerror %d entries, index window starting at %d' % (cls, n, view), obls, [], replay=None,
+                      extra=dict(bounds='%d entries (case split), index buffers windows %d entries into their buffers; entries and content length symbolic; the rule kernel is a stub that finds nothing (its verdicts are the C11 kernel harnesses\' subject)' % (n, view)))
+
+
+def jobs_window_validity(tier):
+    q = [('ListArray64', 2, 1), ('IndexedArray64', 2, 1), ('IndexedOptionArray64', 2, 2)]
+    if tier != 'quick':
+        q += [(c, n_, v_) for c in ('ListArray64', 'IndexedArray64', 'IndexedOptionArray64') for n_, v_ in ((0, 0), (1, 0), (3, 2))]
+    return [(h_window_validity, a, 1800) for a in q]
 
 
 def jobs_validity_params(tier):
